@@ -191,7 +191,13 @@ def s5(ctx, rep):
         ok = parity.arms_are_dual(amin, amax, oriented=True) and "argmin" in U(amin)
         bi = chs[0][4] if chs[0][4] not in ("expr", "return") else next(
             (U(x.targets[0]) for x in walk_shallow(e.node) if isinstance(x, ast.Assign) and x.value is chs[0][0]), "?")
-        ok = ok and any(isinstance(x, ast.Assign) and f"self.results.loc[{bi}]" in U(x.value) for x in walk_shallow(e.node))
+        # (the choice may be between the two bound methods, called afterwards: the index is then the result of that call)
+        called = [U(x.targets[0]) for x in walk_shallow(e.node) if isinstance(x, ast.Assign) and isinstance(x.value, ast.Call)
+                  and isinstance(x.value.func, ast.Name) and x.value.func.id == bi and not x.value.args and not x.value.keywords]
+        bi_call = f"{bi}()"
+        bi = called[0] if len(called) == 1 else bi
+        ok = ok and any(isinstance(x, ast.Assign) and (f"self.results.loc[{bi}]" in U(x.value) or f"self.results.loc[{bi_call}]" in U(x.value))
+                        for x in walk_shallow(e.node))
     rep.put(ok, "S5", "parity", "ExperimentResult.best_config: argmin for min / argmax for max over the results table, row looked up by that index", e, None, "")
     mm = P.func("syne_tune.util.metric_name_mode")
     cm = cfg_of(mm)
